@@ -39,6 +39,8 @@ Definition as_label (v : val) : label :=
   else if t =? 16 then LChildExit
   else if t =? 17 then LExit
   else if t =? 18 then LQuitPub
+  else if t =? 20 then LHideWin
+  else if t =? 21 then LShowWin
   else LProcEnd.
 
 Definition vproc (p : proc) : val :=
@@ -80,6 +82,28 @@ Definition d_strict (pol : policy) (t : tmpl) (u : uistate) (ls : list label) : 
   | None => VL [VI 0; observe pol (run pol ls (init t u))]
   end.
 
+(* 2005: spec of the part of the output the window shows: [sum, denom, height, headers, n, [seen line numbers]] ->
+   [requested_offset, final_offset, [expected line numbers], ok] *)
+Definition d_scroll_spec (sum denom height headers n : Z) (seen : list Z) : val :=
+  let req := requested_offset sum denom height headers in
+  let off := final_offset req headers n in
+  VL [VI req; VI off; vints (visible_lines n height headers off); vbool (shows_requested_part sum denom height headers n seen)].
+
+Definition as_slabel (v : val) : slabel :=
+  let t := as_int v in
+  if t =? 0 then GLine else if t =? 1 then GTick else if t =? 2 then GEof else RDisplay.
+
+(* a schedule in run-length form: [[label, count]...] *)
+Fixpoint repl {A} (n : nat) (x : A) : list A := match n with O => [] | S k => x :: repl k x end.
+Definition as_sched (v : val) : list slabel :=
+  flat_map (fun p => repl (as_nat (arg p 1)) (as_slabel (arg p 0))) (as_list v).
+
+(* 2006: the scroll machine of the tree on a schedule: [req, headers, w0, [[label, count]...]] ->
+   [done, lost, edge, lines in the window, offset of the window] *)
+Definition d_scroll_run (req headers w0 : Z) (sched : list slabel) : val :=
+  let s := srun true req headers sched (sinit req w0) in
+  VL [vbool (sdone s); vbool (k_lost s); vbool (k_edge s); VI (k_wn s); VI (k_woff s)].
+
 Definition dispatch_preview (op : Z) (a : val) : option val :=
   if op =? 2001 then
     Some (d_canonical (as_pol (arg a 0)) (as_tmpl (arg a 1)) (as_ui (arg a 2)) (map as_label (as_list (arg a 3))))
@@ -89,4 +113,9 @@ Definition dispatch_preview (op : Z) (a : val) : option val :=
     Some (d_strict (as_pol (arg a 0)) (as_tmpl (arg a 1)) (as_ui (arg a 2)) (map as_label (as_list (arg a 3))))
   else if op =? 2004 then
     Some (vbool (explains (map as_args (as_list (arg a 0))) (map as_args (as_list (arg a 1)))))
+  else if op =? 2005 then
+    Some (d_scroll_spec (as_int (arg a 0)) (as_int (arg a 1)) (as_int (arg a 2)) (as_int (arg a 3)) (as_int (arg a 4))
+                        (map as_int (as_list (arg a 5))))
+  else if op =? 2006 then
+    Some (d_scroll_run (as_int (arg a 0)) (as_int (arg a 1)) (as_int (arg a 2)) (as_sched (arg a 3)))
   else None.
